@@ -692,12 +692,26 @@ func (e *Engine) sepFree(t *T, sep byte) bool {
 
 // syntacticSplit splits a concatenation whose symbolic pieces are known to be separator-free.
 func (e *Engine) syntacticSplit(s *T, sep string) ([]*T, bool) {
-	if len(sep) != 1 {
+	if len(sep) == 0 {
 		return nil, false
 	}
 	parts := []*T{s}
 	if s.Op == "str.++" {
 		parts = s.Args
+	}
+	if len(sep) > 1 {
+		// multi-byte separator: decided syntactically when every byte of the separator is excluded from every symbolic
+		// piece (then an occurrence cannot touch a symbolic piece, so all occurrences lie inside constant pieces)
+		for _, p := range parts {
+			if p.IsConst() {
+				continue
+			}
+			for i := 0; i < len(sep); i++ {
+				if !e.sepFree(p, sep[i]) {
+					return nil, false
+				}
+			}
+		}
 	}
 	var out []*T
 	cur := []*T{}
@@ -713,7 +727,7 @@ func (e *Engine) syntacticSplit(s *T, sep string) ([]*T, bool) {
 			}
 			continue
 		}
-		if !e.sepFree(p, sep[0]) {
+		if len(sep) == 1 && !e.sepFree(p, sep[0]) {
 			return nil, false
 		}
 		cur = append(cur, p)
